@@ -72,6 +72,8 @@ def gen_module(rng, helper_name):
     if rng.random() < 0.5:
         L = ['r"""', 'Module %d.' % nid(), '', '>>> print("module doc")', 'module doc', '"""'] + L
 
+    defined = {'module': [], 'class': []}
+
     def func(indent, in_class):
         k = nid()
         pad = ' ' * indent
@@ -81,6 +83,13 @@ def gen_module(rng, helper_name):
             out.append(pad + '@' + deco)
         is_async = deco is None and rng.random() < 0.2
         name = 'f%d' % k
+        scope = 'class' if in_class else 'module'
+        if deco in (None, 'local_deco', 'logged') and defined[scope] and rng.random() < 0.15:
+            # a redefinition of an earlier function of the same scope (conditional redefinition, overload stubs
+            # followed by the implementation): the later definition is the one both analyses must report
+            name = rng.choice(defined[scope])
+        elif deco in (None, 'local_deco', 'logged'):
+            defined[scope].append(name)
         out.append(pad + ('async def ' if is_async else 'def ') + name + '(*args):')
         out += doc(rng, k, indent + 4)
         if deco == 'contextlib.contextmanager':
@@ -96,6 +105,7 @@ def gen_module(rng, helper_name):
     def klass(indent):
         k = nid()
         pad = ' ' * indent
+        defined['class'] = []
         out = [pad + 'class K%d(object):' % k] + doc(rng, k, indent + 4)
         for _ in range(rng.randint(0, 3)):
             out += func(indent + 4, True)
@@ -223,9 +233,9 @@ def run(ctx):
         shutil.rmtree(tmp, ignore_errors=True)
     ctx.add_rule('%d generated importable modules (functions, async functions, classes, static/class methods, properties with same-name setters, functools.wraps '
                  'decorators local and imported from a helper module, contextlib.contextmanager, definitions in if/try/with and in the else branch of the main guard, '
-                 'nested definitions, imported names) x styles; names bound once; non-trivial = more than 3 documented callables' % n)
+                 'nested definitions, imported names, functions and methods defined twice) x styles; class names bound once; non-trivial = more than 3 documented callables' % n)
     ctx.sample({'module_source': results[0]['src'][:1200]})
-    ctx.assumptions += ['Ordinary: every module-level name is bound once and every branch holding a definition is taken (generator invariant)',
+    ctx.assumptions += ['Ordinary: no class name is bound again and every branch holding a definition is taken (generator invariant); functions and methods may be defined twice',
                         'Python\'s evaluation of def/class statements is modelled by the abstract evaluation of Model/DynCollect.v']
 
 
